@@ -1,14 +1,147 @@
 package main
 
 import (
+	"bufio"
+	"encoding/hex"
 	"fmt"
+	"io"
 	"math/rand"
+	"os"
+	"os/exec"
+	"strconv"
 	"strings"
 
 	"github.com/inspirer/textmapper/util/diff"
 )
 
-func init() { props["C27"] = c27 }
+func init() {
+	props["C27"] = c27
+	props["C27-worker"] = c27WorkerMain
+}
+
+// ---- worker child process ----
+//
+// trace and middle call log.Fatal (os.Exit) when they find no snake. To observe that as an answer
+// of one case instead of losing the whole run, the real code is called in a child process (the same
+// binary, property "C27-worker") that answers one request per line:
+//
+//	mid a b      -> x,y,s            lcs a b -> d:i:e;...        ld hexleft hexright -> hex of LineDiff
+//
+// A recovered panic is answered "panic"; if the child dies the request is answered "fatal" and a new
+// child is started.
+
+func c27WorkerMain(c *Ctx) {
+	in := bufio.NewReaderSize(os.Stdin, 1<<20)
+	out := bufio.NewWriterSize(os.Stdout, 1<<20)
+	for {
+		line, err := in.ReadString('\n')
+		if line = strings.TrimSpace(line); line != "" {
+			fmt.Fprintln(out, c27Answer(strings.Fields(line)))
+			out.Flush()
+		}
+		if err != nil {
+			return
+		}
+	}
+}
+
+func c27ParseInts(s string) []int {
+	if s == "-" {
+		return nil
+	}
+	var ret []int
+	for _, f := range strings.Split(s, ",") {
+		v, _ := strconv.Atoi(f)
+		ret = append(ret, v)
+	}
+	return ret
+}
+
+func c27Unhex(s string) string {
+	if s == "-" {
+		return ""
+	}
+	b, _ := hex.DecodeString(s)
+	return string(b)
+}
+
+func c27Answer(f []string) (ans string) {
+	defer func() {
+		if recover() != nil {
+			ans = "panic"
+		}
+	}()
+	switch {
+	case len(f) == 3 && f[0] == "mid":
+		x, y, s := diff.VerifMiddle(c27ParseInts(f[1]), c27ParseInts(f[2]))
+		return fmt.Sprintf("%d,%d,%d", x, y, s)
+	case len(f) == 3 && f[0] == "lcs":
+		return c27Chunks(diff.VerifLCS(c27ParseInts(f[1]), c27ParseInts(f[2])))
+	case len(f) == 3 && f[0] == "ld":
+		return hexs([]byte(diff.LineDiff(c27Unhex(f[1]), c27Unhex(f[2]))))
+	}
+	return "bad-request"
+}
+
+type c27Worker struct {
+	cmd *exec.Cmd
+	in  io.WriteCloser
+	out *bufio.Reader
+	dir string
+}
+
+var c27W *c27Worker
+
+func (w *c27Worker) start() {
+	exe, err := os.Executable()
+	must(err)
+	w.cmd = exec.Command(exe, "C27-worker", "-out", w.dir)
+	w.in, err = w.cmd.StdinPipe()
+	must(err)
+	o, err := w.cmd.StdoutPipe()
+	must(err)
+	w.out = bufio.NewReaderSize(o, 1<<20)
+	must(w.cmd.Start())
+}
+
+func (w *c27Worker) stop() {
+	if w.cmd != nil {
+		w.in.Close()
+		w.cmd.Wait()
+		w.cmd = nil
+	}
+}
+
+// call runs one request against the real code.
+func (w *c27Worker) call(req string) string {
+	if w.cmd == nil {
+		w.start()
+	}
+	_, werr := io.WriteString(w.in, req+"\n")
+	line, rerr := w.out.ReadString('\n')
+	if werr != nil || rerr != nil {
+		w.in.Close()
+		w.cmd.Wait()
+		w.cmd = nil
+		return "fatal"
+	}
+	return strings.TrimSpace(line)
+}
+
+func c27ParseChunks(s string) ([]diff.VerifChunk, bool) {
+	if s == "_" {
+		return nil, true
+	}
+	var ret []diff.VerifChunk
+	for _, p := range strings.Split(s, ";") {
+		var ch diff.VerifChunk
+		if n, err := fmt.Sscanf(p, "%d:%d:%d", &ch.Del, &ch.Ins, &ch.Eq); n != 3 || err != nil {
+			return nil, false
+		}
+		ret = append(ret, ch)
+	}
+	return ret, true
+}
 
 // c27KnownToken marks inputs of the class "one run of more than 14 inserted or deleted lines":
 // hunk.add elides such runs, the rendered hunk cannot be applied (reported finding).
@@ -23,6 +156,12 @@ func c27(c *Ctx) {
 		"evaluated on inputs whose script has no run of more than 14 inserted or deleted lines (longer runs are elided by hunk.add: finding " +
 		c27KnownToken + ", reproduced by fixed cases); on longer runs the rendering is still compared (op ldr) and the script is still judged. " +
 		"non-trivial = a and b differ and share at least one element; distinct by case line"
+
+	dir, err := os.MkdirTemp("", "tmh-c27-")
+	must(err)
+	defer os.RemoveAll(dir)
+	c27W = &c27Worker{dir: dir}
+	defer c27W.stop()
 
 	// Fixed cases first (corpus): the documented elision.
 	c27Fixed(c)
@@ -226,31 +365,21 @@ func c27NonTrivial(a, b []int) bool {
 }
 
 func c27LCS(c *Ctx, a, b []int) {
-	var cs []diff.VerifChunk
-	panicked := false
-	func() {
-		defer func() {
-			if recover() != nil {
-				panicked = true
-			}
-		}()
-		cs = diff.VerifLCS(append([]int(nil), a...), append([]int(nil), b...))
-	}()
 	key := func(line string) string {
 		if c27NonTrivial(a, b) {
 			return line
 		}
 		return ""
 	}
-	if panicked {
-		line := fmt.Sprintf("lcsx %s %s", ints(a), ints(b))
-		c.Case(line, "panic", key(line))
-		c.Violate("lcs panics", line)
-		return
-	}
+	ans := c27W.call(fmt.Sprintf("lcs %s %s", ints(a), ints(b)))
 	// exact mirror
 	line := fmt.Sprintf("lcsx %s %s", ints(a), ints(b))
-	c.Case(line, c27Chunks(cs), key(line))
+	c.Case(line, ans, key(line))
+	cs, ok := c27ParseChunks(ans)
+	if !ok {
+		c.Violate("lcs does not return a script: "+ans, line)
+		return
+	}
 	// semantic verdict
 	line = fmt.Sprintf("lcs %s %s %s", ints(a), ints(b), c27Chunks(cs))
 	cost, why := c27Script(a, b, cs)
@@ -264,16 +393,10 @@ func c27LCS(c *Ctx, a, b []int) {
 
 func c27Mid(c *Ctx, a, b []int) {
 	line := fmt.Sprintf("mid %s %s", ints(a), ints(b))
-	ans := ""
-	func() {
-		defer func() {
-			if recover() != nil {
-				ans = "panic"
-			}
-		}()
-		x, y, s := diff.VerifMiddle(append([]int(nil), a...), append([]int(nil), b...))
-		ans = fmt.Sprintf("%d,%d,%d opt", x, y, s)
-	}()
+	ans := c27W.call(line)
+	if ans != "fatal" && ans != "panic" {
+		ans += " opt" // what the property needs from middle; the Lean side evaluates it
+	}
 	key := ""
 	if c27NonTrivial(a, b) {
 		key = line
@@ -449,31 +572,28 @@ func c27Apply(patch, left string) (string, bool) {
 func c27LD(c *Ctx, left, right, shape string, fixed bool) {
 	a, b := c27Split(left, right)
 	longRun := false
-	var cs []diff.VerifChunk
-	text, panicked := "", false
-	func() {
-		defer func() {
-			if recover() != nil {
-				panicked = true
-			}
-		}()
-		cs = diff.VerifLCS(a, b)
-		text = diff.LineDiff(left, right)
-	}()
+	hl, hr := hexs([]byte(left)), hexs([]byte(right))
+	csAns := c27W.call(fmt.Sprintf("lcs %s %s", ints(a), ints(b)))
+	cs, _ := c27ParseChunks(csAns)
+	textAns := c27W.call(fmt.Sprintf("ld %s %s", hl, hr))
+	panicked := textAns == "fatal" || textAns == "panic"
+	text := ""
+	if !panicked {
+		text = c27Unhex(textAns)
+	}
 	for _, ch := range cs {
 		if ch.Del > 14 || ch.Ins > 14 {
 			longRun = true
 		}
 	}
-	hl, hr := hexs([]byte(left)), hexs([]byte(right))
 	key := ""
 	if left != right && c27NonTrivial(a, b) {
 		key = hl + " " + hr
 	}
 	if panicked {
 		line := fmt.Sprintf("ldr %s %s", hl, hr)
-		c.Case(line, "panic", key)
-		c.Violate("LineDiff panics", line)
+		c.Case(line, textAns, key)
+		c.Violate("LineDiff does not return ("+textAns+")", line)
 		return
 	}
 	if longRun && !fixed {
